@@ -72,3 +72,55 @@ def py_split_unquoted(text, sep):
         left = c + 1
     out.append(text[left:])
     return out
+
+
+def py_canon(text):
+    """token-level normal form: runs of blanks outside literals -> one blank, ends stripped"""
+    import re as _re
+    outside = set(py_outside_positions(text))
+    marked = "".join(("\x00" if (i in outside and c in " \t") else c) for i, c in enumerate(text))
+    return _re.sub("\x00+", " ", marked.strip("\x00"))
+
+
+def py_free_statements(lines):
+    """Reference: logical statements of a free-form fragment without doc comments
+    (F2008 3.3.2.4): comments removed, blank/comment lines transparent, `&` continuation with
+    optional leading `&`, `;` separation outside literals.  Returned in canonical form (blanks
+    outside literals removed); None for fragments outside the scenario (literal continuation
+    without leading &, `!` on a line that starts inside a literal)."""
+    stmts, cur, continued = [], "", False
+    for raw in lines:
+        line = raw.rstrip("\n")
+        state = py_lex_state(cur)
+        lead = False
+        if continued and state != OUT:
+            t = line.strip()
+            if not t.startswith("&") or "!" in t:
+                return None
+            t = t[1:]
+            lead = True
+        else:
+            fb = py_first_unquoted(line, "!")
+            code = line if fb < 0 else line[:fb]
+            t = code.strip()
+            if not t:
+                continue
+            if t.startswith("&"):
+                if not continued:
+                    return None
+                t = t[1:]
+                lead = True
+                if not t.strip():
+                    continue
+        sep = "" if (lead or not cur) else " "
+        if t.endswith("&"):
+            continued, t = True, t[:-1]
+        else:
+            continued = False
+        cur += sep + t
+        if not continued:
+            stmts += [py_canon(p) for p in py_split_unquoted(cur, ";") if p.strip()]
+            cur = ""
+    if continued or cur:
+        return None
+    return stmts
